@@ -400,7 +400,8 @@ func (exp *MapExp) equal(uother Exp) error {
 			"Map sizes differ: %d != %d",
 			len(exp.Value), len(other.Value))
 	}
-	for k, v := range exp.Value {
+	for _, k := range sortedKeys(exp.Value) {
+		v := exp.Value[k]
 		if ov, ok := other.Value[k]; !ok {
 			return fmt.Errorf(
 				"Missing map key %s",
@@ -554,7 +555,8 @@ func (exp *RefExp) equal(other Exp) error {
 	} else if len(exp.Forks) != len(ov.Forks) {
 		return nil
 	} else {
-		for c, i := range exp.Forks {
+		for _, c := range sortedCalls(exp.Forks) {
+			i := exp.Forks[c]
 			j := ov.Forks[c]
 			if i == nil && j != nil {
 				return fmt.Errorf("nil fork dim %s", c.Id)
